@@ -49,6 +49,18 @@ def unit_stft_frame(prop):
     return unit
 
 
+def unit_stft(prop, which):
+    def unit(tier, known):
+        from contracts import stft_stream as C
+        contract = getattr(C, "contract_" + which)()
+        setups = [(m, getattr(C, "setup_" + which)(m, known)) for m in C.MODES]
+        return run_contract(prop, ("compute", f"{C.CLS}.{'compute_' + which if which in ('full', 'chunk') else which}"), contract, setups,
+                            name="stft_" + which, to_case=getattr(C, "to_case_" + which, None))
+    unit.__name__ = "stft_" + which
+    return unit
+
+
 UNITS = {
-    "C02": [unit_stft_frame("C02")],
+    "C02": [unit_stft_frame("C02"), unit_stft("C02", "full")],
+    "C01": [unit_stft("C01", "finalize")],
 }
